@@ -1209,14 +1209,21 @@ def serialise_check(r, fields, slot_cand, si):
     return problems
 
 
-def single_cases(world, typenames, kws=(False, True)):
+def single_cases(world, typenames, kws=(False, True), quick=False):
+    """quick tier: the keyword-named variant for every second candidate only, and for the list forms of alias names
+    (same class or unchanged subclass of another name) the candidates that are about class identity"""
     out = []
     for tn in typenames:
         forms = [tn, tn + "[]"]
         for form in forms:
-            for c in world.table(form):
+            for ci, c in enumerate(world.table(form)):
                 ref = (form, c.kind)
+                if quick and tn in ALIASES and form.endswith("[]") and not (
+                        c.kind.startswith(("listobj_", "list1:foreign_", "list1:instance", "list_", "tuple_")) or ci % 4 == 0):
+                    continue
                 for kw in (kws if tn not in ALIASES else (False,)):
+                    if quick and kw and ci % 2:
+                        continue
                     ops = [("construct", {}), ("set", 0, ref), ("construct", {0: ref}), ("replace", {0: ref}), ("gset", 0, ref)]
                     if c.kind.split(":")[-1].startswith(("foreign_", "listobj_")) and ":" not in c.kind:
                         ops.append(("init_from", {0: ref}))      # Target.init_from_record(source record)
@@ -1580,7 +1587,7 @@ def run(ctx):
     names = all_typenames()
     rnd = random.Random(ctx.seed)
     quick = ctx.tier == "quick"
-    cases = pair_cases(world, names) + single_cases(world, names) + random_cases(world, names, rnd, 250 if quick else 12000)
+    cases = pair_cases(world, names) + single_cases(world, names, quick=quick) + random_cases(world, names, rnd, 250 if quick else 12000)
     reported, terms, metas = evaluate(ctx, world, cases, kf)
     if not reported:
         reported = range_sweep(ctx)
